@@ -82,6 +82,26 @@ def one_case(rng, tier):
     al = Alphabet(rng)
     case = Case()
     r = rng.random()
+    if r < 0.05:
+        # almost-universal right-hand sides: a star over the alphabet minus exactly one end point
+        lo, hi = rng.choice([(1, MAXC), (0, MAXC - 1), (1, MAXC - 1), (0, MAXC)])
+        near = case.push("range %d %d" % (lo, hi)); b = case.push("star %d" % near)
+        k = rng.randrange(4)
+        if k == 0:
+            a = case.push("char %d" % rng.choice([0, MAXC]))
+        elif k == 1:
+            a = case.push("str " + word([rng.choice([0, MAXC, 97]), rng.choice([0, MAXC, 97])]))
+        elif k == 2:
+            x = case.push("allchar"); a = case.push("pow %d 2" % x)
+        else:
+            x = case.push("str " + word([97, 98, 99])); a = case.push("comp %d" % x)
+        if rng.random() < 0.5:
+            pre = case.push("char 97"); post = case.push("char 98")
+            a = case.push("concatl 3 %d %d %d" % (pre, a, post)); b = case.push("concatl 3 %d %d %d" % (pre, b, post))
+        case.obs("incl %d %d" % (a, b)); case.obs("incl %d %d" % (b, a))
+        u = case.push("union %d %d" % (a, b))
+        case.obs("memall %d %d %s" % (u, 3, word([0, 97, MAXC])))
+        return case.line()
     if r < 0.35:
         a, b = generalised_pair(rng, case, al)
     elif r < 0.6:
